@@ -86,3 +86,11 @@ CASES += [
     {"name": "eigenvectors taken by index", "kind": "twin", "edits": [
         (OPS, "        dd, SS = numpy.linalg.eigh(self._data)\n        return SS", "        return numpy.linalg.eigh(self._data)[1]", 1)]},
 ]
+
+CASES += [
+    {"name": "copy made by apply() left unknown to the basis manager (the repaired defect)", "kind": "mutant", "rule": "C04-B3", "edits": [
+        ("quantarhei/qm/liouvillespace/superoperator.py", "            if ob != 0:\n                oper_ven.manager.register_with_basis(ob, oper_ven)\n", "", 1)]},
+    {"name": "copy registered through a named manager", "kind": "twin", "edits": [
+        ("quantarhei/qm/liouvillespace/superoperator.py", "            if ob != 0:\n                oper_ven.manager.register_with_basis(ob, oper_ven)\n",
+         "            mgr = oper_ven.manager\n            if ob != 0:\n                mgr.register_with_basis(ob, oper_ven)\n", 1)]},
+]
